@@ -8,7 +8,7 @@
 From SV Require Import Base.Bytes Base.BytesP Model.Headers Model.IOSched Spec.ChunkDecode Model.Chunked
                        Spec.RespParse Model.Response Model.WriteFail
                        Proofs.IOSchedP Proofs.ChunkedP Proofs.RespParseP Proofs.ResponseP Proofs.WriteFailP.
-From SV Require Import Base.SrcAst Generated.SourceParams Tie.WriteResponseTie.
+From SV Require Import Base.SrcAst Generated.SourceParams Tie.WriteResponseTie Tie.ResponseTie.
 
 (* C08.1  failed_write_is_prefix.  For every response, close flag, writer and body source: the bytes
    accepted by the writer are a prefix of the one correct serialisation [full_wire] (head, then the
@@ -171,6 +171,11 @@ Theorem c08_error_arm_is_the_source :
 Proof. exact after_result_tie. Qed.
 Theorem c08_loop_translation_complete : src_problems_conn_loop = 0%nat.
 Proof. reflexivity. Qed.
+Theorem c08_head_is_the_source :
+  forall reason ct_text r close, eval_head reason ct_text r close = build_head reason ct_text false r close.
+Proof. exact response_head_tie. Qed.
+Theorem c08_serialiser_translation_complete : src_problems_resp_head = 0%nat /\ src_resp_body_shape_ok = true.
+Proof. exact resp_head_translated. Qed.
 Theorem c08_translation_complete : src_problems_write_response = 0%nat.
 Proof. exact write_response_translated. Qed.
 
@@ -188,3 +193,5 @@ Print Assumptions c08_write_response_is_the_source.
 Print Assumptions c08_translation_complete.
 Print Assumptions c08_error_arm_is_the_source.
 Print Assumptions c08_loop_translation_complete.
+Print Assumptions c08_head_is_the_source.
+Print Assumptions c08_serialiser_translation_complete.
